@@ -37,6 +37,7 @@ type Gen struct {
 	MaxDepth int
 	MaxElems int
 	BigProb  int // 1/BigProb chance of boundary-size payloads and counts
+	Budget   int // remaining bytes of big payloads for the tree being generated (keeps the model run fast)
 }
 
 func (g *Gen) pickInt(bits uint) int64 {
@@ -78,7 +79,11 @@ func (g *Gen) pickUint(bits uint) uint64 {
 func (g *Gen) payloadSize() int {
 	r := g.R
 	if g.BigProb > 0 && r.Intn(g.BigProb) == 0 {
-		return BoundSizes[r.Intn(len(BoundSizes))]
+		n := BoundSizes[r.Intn(len(BoundSizes))]
+		if n <= g.Budget {
+			g.Budget -= n
+			return n
+		}
 	}
 	return r.Intn(12)
 }
@@ -130,6 +135,13 @@ func (g *Gen) count() int {
 
 // Tree returns a random tree of at most the given depth.
 func (g *Gen) Tree(depth int) *Node {
+	if depth >= g.MaxDepth || g.Budget <= 0 {
+		g.Budget = 150000
+	}
+	return g.tree(depth)
+}
+
+func (g *Gen) tree(depth int) *Node {
 	r := g.R
 	if depth <= 0 || r.Intn(3) == 0 {
 		return g.Scalar()
@@ -141,7 +153,7 @@ func (g *Gen) Tree(depth int) *Node {
 			if c > 40 {
 				n.Elems = append(n.Elems, g.Scalar())
 			} else {
-				n.Elems = append(n.Elems, g.Tree(depth-1))
+				n.Elems = append(n.Elems, g.tree(depth-1))
 			}
 		}
 		return n
@@ -179,7 +191,7 @@ func (g *Gen) Msg(depth int) *Node {
 		if c > 40 {
 			n.Fields = append(n.Fields, g.Scalar())
 		} else {
-			n.Fields = append(n.Fields, g.Tree(depth-1))
+			n.Fields = append(n.Fields, g.tree(depth-1))
 		}
 	}
 	return n
